@@ -419,9 +419,24 @@ def fixed_cases(ctx: Ctx):
     yield {"texts": texts, "ops": ops}
     yield {"texts": list(reversed(texts)), "ops": [["parse", 3, None], ["parse", 2, None],
                                                    ["threads", [[3, None], [2, None]], "coop", [[0, 1], [1, 1]]]]}
+    # two charts that differ in nothing but the resolution, chosen so that the strum/HOPO outcome differs
+    # (threshold 64 vs 32 ticks); sequentially in both orders, then interleaved at several granularities
+    # (the cooperative schedule repeats, so the two parses alternate from their first to their last line)
+    d = copy.deepcopy(a)
+    d["res"] = 96
+    e = copy.deepcopy(a)
+    e["res"] = 480
+    texts2 = [S.render(a), S.render(d), S.render(e)]
+    yield {"texts": texts2, "ops": [["parse", 0, None], ["parse", 1, None], ["parse", 0, None], ["parse", 2, None],
+                                    ["parse", 1, None]]}
+    for run in (1, 5, 17, 100, 1000):
+        yield {"texts": texts2, "ops": [["threads", [[0, None], [1, None]], "coop", [[0, run], [1, run]]],
+                                        ["threads", [[1, None], [2, None], [0, None]], "coop",
+                                         [[0, run], [1, run + 3], [2, run]]]]}
+    yield {"texts": texts2, "ops": [["threads", [[0, None], [1, None], [2, None], [1, None]], "os", []]]}
 
 
 PARTS: list[Part] = [
-    enum_part("fixed", fixed_cases, check_history, {"quick": 2, "thorough": 2}),
+    enum_part("fixed", fixed_cases, check_history, {"quick": 4, "thorough": 4}),
     custom_part("machine", drive_machine, check_history, {"quick": 12, "thorough": 16}),
 ]
